@@ -28,7 +28,8 @@ from elementpath.datatypes import AnyAtomicType, AbstractDateTime, AnyURI, \
 from elementpath.tdop import Token, MultiLabel
 from elementpath.helpers import ordinal, get_double
 from elementpath.xpath_context import XPathContext, XPathSchemaContext
-from elementpath.xpath_nodes import XPathNode, NamespaceNode, DocumentNode, ElementNode
+from elementpath.xpath_nodes import XPathNode, NamespaceNode, DocumentNode, ElementNode, \
+    SchemaElementNode, SchemaAttributeNode
 from elementpath.sequences import xlist
 
 if TYPE_CHECKING:
@@ -528,16 +529,19 @@ class XPathToken(Token[ta.XPathTokenType]):
         """
         value = None
         first = True
-        for value in self.atomization(context):
+        for item in self.atomization(context):
             if not first:
+                if isinstance(context, XPathSchemaContext):
+                    break  # prototype values of a schema node with a union type
                 msg = "atomized operand is a sequence of length greater than one"
                 raise self.error('XPTY0004', msg)
+            value = item
             first = False
+
+        if isinstance(value, UntypedAtomic):
+            return str(value)
         else:
-            if isinstance(value, UntypedAtomic):
-                return str(value)
-            else:
-                return value
+            return value
 
     def iter_comparison_data(self, context: ta.ContextType) -> Iterator[Any]:
         """
@@ -885,13 +889,15 @@ class XPathToken(Token[ta.XPathTokenType]):
         """
         value = None
         first = True
-        for value in self.atomize_item(obj):
+        for item in self.atomize_item(obj):
             if not first:
+                if isinstance(obj, (SchemaElementNode, SchemaAttributeNode)):
+                    break  # prototype values of a schema node with a union type
                 msg = "atomized value is a sequence of length greater than one"
                 raise self.error('XPTY0004', msg)
+            value = item
             first = False
-        else:
-            return value
+        return value
 
     def string_value(self, obj: Any) -> str:
         """
